@@ -392,6 +392,9 @@ func mutateText(rt *rapid.T, s string) string {
 	return string(b)
 }
 
+// tails follow an otherwise complete text: the whole is judged like any other input
+var tails = []string{"", "", " ", " x", " 25:61:00", " 00:00:00", "T00:00:00Z", " 12:30", "\n", ",", " 1", "-", "Z", " +02:00", "\x00"}
+
 func genInput(rt *rapid.T, typ, op string) string {
 	texts := validTexts[typ]
 	switch op {
@@ -410,6 +413,12 @@ func genInput(rt *rapid.T, typ, op string) string {
 			return string([]byte{1, 0, 0, 7, 230, 8, 7, 0})
 		}
 	case "scan":
+		switch rapid.IntRange(0, 3).Draw(rt, "scanInput") {
+		case 0: // a date text, possibly followed by something (drivers hand dates over as text, with or without a time of day)
+			return rapid.SampledFrom(texts).Draw(rt, "text") + rapid.SampledFrom(tails).Draw(rt, "tail")
+		case 1:
+			return mutateText(rt, rapid.SampledFrom(texts).Draw(rt, "text")) + rapid.SampledFrom(tails).Draw(rt, "tail")
+		}
 		return string(rapid.SliceOfN(rapid.Byte(), 0, 6).Draw(rt, "scanSeed"))
 	case "json", "jsonraw":
 		if typ == "size" {
@@ -432,8 +441,11 @@ func genInput(rt *rapid.T, typ, op string) string {
 		}
 	}
 	t := rapid.SampledFrom(texts).Draw(rt, "text")
-	if rapid.IntRange(0, 1).Draw(rt, "mutate") == 0 {
+	switch rapid.IntRange(0, 4).Draw(rt, "mutate") {
+	case 0, 1:
 		t = mutateText(rt, t)
+	case 2:
+		t += rapid.SampledFrom(tails).Draw(rt, "tail")
 	}
 	return t
 }
